@@ -26,7 +26,7 @@ structure WFacts (m : SeqMod) : Prop where
   startSpeed : skipInvalid m 257 0 ≥ m.len ∨ 1 ≤ geti m.oSpeed (skipInvalid m 257 0)
 
 theorem WF.facts {m : SeqMod} (h : WF m) : WFacts m := by
-  unfold WF wfB at h
+  unfold WF wfB wfSongB wfStartSpeedB at h
   simp only [Bool.and_eq_true, decide_eq_true_eq, Bool.or_eq_true] at h
   obtain ⟨⟨⟨⟨⟨⟨⟨⟨⟨⟨⟨⟨⟨⟨⟨⟨h1, h2⟩, h3⟩, _h4⟩, h5⟩, h5b⟩, _h6⟩, _h7⟩, _h8⟩, h9⟩, _h10⟩, hxo⟩, hrows⟩, hentry⟩, hsc⟩, hinfo⟩, hstart⟩ := h
   refine ⟨⟨h1, h2⟩, h3, ⟨h5, h5b⟩, h9, ?_, ?_, ?_, ?_, ?_, hstart⟩
@@ -749,6 +749,45 @@ theorem ctl_spec {m : SeqMod} (w : WFacts m) {s : St} (hc : Core m s) (c : Ctl) 
     simp only [ctl, bufferReset]
     exact ⟨⟨hc.seq, hc.ord, hc.ordPat, hc.pos, hc.row, hc.speed, hc.bpm,
       hc.ftBpm, hc.st26, hc.jump, hc.jumpline⟩, fun ri => ⟨ri.rowLt, ri.numOk⟩⟩
+
+  | rescan =>
+    simp only [ctl, rescanFix]
+    have hn := w.numSeq
+    refine ⟨⟨?_, hc.ord, hc.ordPat, hc.pos, hc.row, hc.speed, hc.bpm, hc.ftBpm, hc.st26, hc.jump, hc.jumpline⟩,
+      fun ri => ⟨ri.rowLt, ri.numOk⟩⟩
+    simp only
+    split
+    · omega
+    · exact hc.seq
+
+/-- the part of the module a rescan (mode / timing switch) leaves alone: the order list, the
+patterns and their lengths -/
+structure SameSong (m m' : SeqMod) : Prop where
+  len : m'.len = m.len
+  pat : m'.pat = m.pat
+  xxo : m'.xxo = m.xxo
+  rows : m'.rows = m.rows
+
+/-- **mode switch**: the boundary invariant survives the replacement of every scan-derived table
+(sequences, entry points, sequence labels, order info, marker quirk, restart handling) by those
+of ANY well-formed rescan of the same song, with the sequence fix-up of `xmp_set_player`. -/
+theorem rescan_spec {m m' : SeqMod} (w' : WFacts m') (ss : SameSong m m') {s : St} (hc : Core m s) :
+    Core m' (rescanFix m' s) ∧ (RowInv m s → RowInv m' (rescanFix m' s)) := by
+  have hn := w'.numSeq
+  have exo : ∀ o, m'.xo o = m.xo o := fun o => by unfold SeqMod.xo; rw [ss.xxo]
+  have ero : ∀ p, m'.rowsOf p = m.rowsOf p := fun p => by unfold SeqMod.rowsOf; rw [ss.rows]
+  refine ⟨⟨?_, by rw [ss.len]; exact hc.ord, by rw [ss.pat]; show m'.xo s.ord < m.pat; rw [exo]; exact hc.ordPat,
+    by rw [ss.len]; exact hc.pos, hc.row, hc.speed, hc.bpm, hc.ftBpm, hc.st26, hc.jump, hc.jumpline⟩, fun ri => ⟨?_, ?_⟩⟩
+  · simp only [rescanFix]
+    split
+    · omega
+    · rename_i h; have := hc.seq; omega
+  · show s.row < m'.rowsOf (m'.xo s.ord)
+    rw [exo, ero]; exact ri.rowLt
+  · have := ri.numOk
+    unfold Fresh at *
+    show s.numRows = m'.rowsOf (m'.xo s.ord)
+    rw [exo, ero]; exact this
 
 /-! ## Termination of the order-skipping loop of `next_order` -/
 
